@@ -1,20 +1,37 @@
 #!/bin/bash
-# seed_matrix.sh [ids...] : run every check against every seeded change on a scratch copy of /repo
-# (never touches /repo); writes seeded/<id>/detect.txt and seeded/MATRIX.md
+# seed_matrix.sh [-j K] [ids...] : run every check against every seeded change on scratch copies of /repo
+# (never touches /repo); writes seeded/<id>/detect.txt; then `tools/gen_matrix.py` renders seeded/MATRIX.md
 set -u
 ROOT=$(cd "$(dirname "$0")/.." && pwd)
+K=6
+if [ "${1:-}" = "-j" ]; then K=$2; shift 2; fi
 MX=${MXDIR:-/tmp/mx}; mkdir -p $MX
-[ -d $MX/repo ] || git -C /repo worktree add -q --detach $MX/repo HEAD
-git -C $MX/repo checkout -q -- . ; git -C $MX/repo checkout -q --detach $(git -C /repo rev-parse HEAD)
-export BPV_REPO=$MX/repo BPV_WORK=$MX/work BPV_EVID=$MX/evidence
-mkdir -p $BPV_WORK $BPV_EVID
-IDS="$@"; [ -z "$IDS" ] && IDS=$(ls $ROOT/seeded | grep -E '^C[0-9]+[a-z]')
-for id in $IDS; do
-  cd $MX/repo && git checkout -q -- . && git clean -fdq src
-  P=$ROOT/seeded/$id/patch.diff
-  git apply $P 2>/dev/null || patch -p1 --no-backup-if-mismatch -s < $P || { echo "$id APPLY-FAILED" > $ROOT/seeded/$id/detect.txt; continue; }
-  OUT=$(cd $ROOT && ./bpv all 2>&1)
-  { echo "$OUT" | grep "^\[C" | awk '{print $1, $5}' ; echo "---"; echo "$OUT" | grep -A2 "^VIOLATION" | grep "rule=" | sort | uniq -c | sort -rn | head -40; } > $ROOT/seeded/$id/detect.txt
-  echo "$id: $(grep -v 'violations=0' $ROOT/seeded/$id/detect.txt | grep '^\[C' | tr -d '[]' | awk '{print $1}' | tr '\n' ' ')"
+rm -f $MX/mout.*
+IDS=("$@"); [ ${#IDS[@]} -eq 0 ] && IDS=($(ls $ROOT/seeded | grep -E '^C[0-9]+[a-z]'))
+worker() {
+  local w=$1; shift
+  local D=$MX/w$w; mkdir -p $D
+  [ -d $D/repo ] || git -C /repo worktree add -q --detach $D/repo HEAD
+  git -C $D/repo checkout -q -- . ; git -C $D/repo checkout -q --detach $(git -C /repo rev-parse HEAD)
+  export BPV_REPO=$D/repo BPV_WORK=$D/work BPV_EVID=$D/evidence
+  mkdir -p $BPV_WORK $BPV_EVID
+  for id in "$@"; do
+    cd $D/repo && git checkout -q -- . && git clean -fdq src
+    P=$ROOT/seeded/$id/patch.diff
+    git apply $P 2>/dev/null || patch -p1 --no-backup-if-mismatch -s < $P || { echo "$id APPLY-FAILED" > $ROOT/seeded/$id/detect.txt; echo "$id: APPLY-FAILED"; continue; }
+    OUT=$(cd $ROOT && ./bpv all 2>&1)
+    { echo "$OUT" | grep "^\[C" | awk '{print $1, $5}' ; echo "---"; echo "$OUT" | grep -A2 "^VIOLATION" | grep "rule=" | sort | uniq -c | sort -rn | head -40; } > $ROOT/seeded/$id/detect.txt
+    echo "$id: $(grep -v 'violations=0' $ROOT/seeded/$id/detect.txt | grep '^\[C' | tr -d '[]' | awk '{print $1}' | tr '\n' ' ')"
+  done
+  cd $D/repo && git checkout -q -- .
+}
+pids=()
+for ((w=0; w<K; w++)); do
+  chunk=()
+  for ((i=w; i<${#IDS[@]}; i+=K)); do chunk+=("${IDS[$i]}"); done
+  [ ${#chunk[@]} -gt 0 ] || continue
+  worker $w "${chunk[@]}" > $MX/mout.$w 2>&1 &
+  pids+=($!)
 done
-cd $MX/repo && git checkout -q -- .
+for p in "${pids[@]}"; do wait $p; done
+cat $MX/mout.* | sort
